@@ -40,6 +40,7 @@ ItemOf(n) ==
     [] n = "a-b" -> IRng(LA, LB) [] n = "A-a" -> IRng(UA, LA) [] n = "5-A" -> IRng(D5, UA)
     [] n = "SP-5" -> IRng(SP, D5) [] n = "a-a" -> IRng(LA, LA) [] n = "NL-AS" -> IRng(NL, AS)
     [] n = "_-AS" -> IRng(US, AS)
+    [] n = "5-CARET" -> IRngX(D5, UA, "^") [] n = "a-RBRACE" -> IRngX(LA, LB, "}")
     [] n \in {"d", "D", "s", "S", "w", "W", "i", "I", "c", "C"} -> IEsc(n, "")
     [] n = "pL" -> IEsc("p", "L")   [] n = "PL" -> IEsc("P", "L")
     [] n = "pLu" -> IEsc("p", "Lu") [] n = "PLu" -> IEsc("P", "Lu")
